@@ -7,6 +7,19 @@ import shutil
 from .. import codec, core, gen, schemagen
 
 
+CRAFTED = [
+    ("vz.point x:int y:int = vz.Point;\nvy.holder pts:(vector vz.point) = vy.Holder;\n", "vz."),
+    ("vz.point x:int y:int = vz.Point;\nvy.holder pts:(Vector vz.Point) n:int = vy.Holder;\n", "vz."),
+    ("vz.point x:int y:int = vz.Point;\nvy.holder m:(Maybe vz.point) = vy.Holder;\n", "vz."),
+    ("vz.point x:int y:int = vz.Point;\nvy.holder d:(dictionary vz.point) t:(tuple vz.point 2) = vy.Holder;\n", "vz."),
+    ("vz.point x:int y:int = vz.Point;\nvy.gen {n:#} a:n*[int] = vy.Gen n;\nvy.holder p:(pair int (vector vz.Point)) = vy.Holder;\n", "vz."),
+    ("vz.point x:int y:int = vz.Point;\n---functions---\n@read vy.list id:int = Vector vz.Point;\n@read vy.one id:int = Maybe vz.point;\n", "vz."),
+    ("vz.point x:int y:int = vz.Point;\nvz.line a:vz.point b:vz.point = vz.Line;\nvy.holder n:int = vy.Holder;\n---functions---\n@read vy.get id:int = vy.Holder;\n@read vz.getLine id:int = vz.Line;\n", "vz."),
+    ("vz.point x:int y:int = vz.Point;\nvy.holder pts:(vector vz.point) = vy.Holder;\n", "vy."),
+    ("vz.point x:int y:int = vz.Point;\nvy.holder pts:(vector vz.point) = vy.Holder;\n", "vz.point"),
+]
+
+
 def one(ctx, name, src_files, whitelist, thorough, tot, c):
     """migrate copies of src_files with the whitelist and compare the two generated packages"""
     key = re.sub(r"\W", "_", name)
@@ -77,7 +90,16 @@ def run(ctx):
         s = schemagen.generate(ctx.seed, "c27/%d" % i)
         p = os.path.join(ctx.work, "rnd_c27_%d.tl" % i)
         open(p, "w").write(s.text())
-        jobs.append(("random:c27/%d" % i, [p], "*" if i % 3 else "vz."))
+        jobs.append(("random:c27/%d" % i, [p], "*"))
+        # partial whitelists: types that stay TL1 keep referring to migrated ones (directly, in brackets, as arguments of templates that do not migrate)
+        for ns in sorted(set(d.ns for d in s.decls)):
+            if thorough or i < 2:
+                jobs.append(("random:c27/%d:%s." % (i, ns), [p], ns + "."))
+    # crafted reverse dependencies: a type that stays TL1 reaches a migrated one only through arguments of templates that do not migrate
+    for ci, (txt, wl) in enumerate(CRAFTED):
+        p = os.path.join(ctx.work, "crafted_c27_%d.tl" % ci)
+        open(p, "w").write(schemagen.PRELUDE + txt)
+        jobs.append(("crafted:%d" % ci, [p], wl))
     for name, files, wl in jobs:
         one(ctx, name, files, wl, thorough, tot, c)
     ctx.count(tot.get("checked", 0))
